@@ -320,6 +320,37 @@ pub fn run_family(name: &str, thorough: bool) -> Vec<Value> {
                 p.out.push(json!({"id": d, "call": "blind_proof_verify", "inputs": [format!("{:x}", l), format!("{:?}", di), format!("{:?}", dj)], "outcome": outcome, "tags": ["counts"]}));
             }
         }
+        "proof_gen_counts" => {
+            // holder entry points with index lists that do not fit the message list: Err, never a panic
+            let kp = KP::<Sha>::generate(IKM, None, None).unwrap();
+            let m = msgs(3);
+            let sig = Sig::<Sha>::sign(Some(&m), kp.private_key(), kp.public_key(), Some(HEADER)).unwrap();
+            let cases: Vec<(Vec<usize>, &str)> = vec![
+                (vec![usize::MAX], "index usize::MAX"), (vec![0, usize::MAX], "indexes 0, usize::MAX"), (vec![usize::MAX - 1], "index usize::MAX - 1"),
+                (vec![3], "index == L"), (vec![4], "index L + 1"), (vec![0, 1, 2, 3], "more indexes than messages"), (vec![2, 2], "repeated index"),
+                (vec![usize::MAX, usize::MAX], "two usize::MAX"), (vec![1usize << 63], "index 2^63"),
+            ];
+            for (di, d) in cases {
+                let (sb, pkb, m2, di2) = (sig.to_bytes(), kp.public_key().to_bytes(), m.clone(), di.clone());
+                let outcome = guard(move || {
+                    let pk = BBSplusPublicKey::from_bytes(&pkb).unwrap();
+                    match Pok::<Sha>::proof_gen(&pk, &sb, Some(HEADER), Some(PH), Some(&m2), Some(&di2)) {
+                        Ok(_) => "ok:generated".to_string(),
+                        Err(e) => format!("err:{e:?}"),
+                    }
+                });
+                p.out.push(json!({"id": format!("proof_gen-{}", d), "call": "proof_gen", "inputs": [format!("{:?}", di)], "outcome": outcome, "tags": if d == "repeated index" { vec!["counts"] } else { vec!["expect-err", "counts"] }}));
+                let (sb, pkb, m2, di2) = (sig.to_bytes(), kp.public_key().to_bytes(), m.clone(), di.clone());
+                let outcome = guard(move || {
+                    let pk = BBSplusPublicKey::from_bytes(&pkb).unwrap();
+                    match Pok::<Sha>::blind_proof_gen(&pk, &sb, Some(HEADER), Some(PH), Some(&m2), None, Some(&di2), None, None) {
+                        Ok(_) => "ok:generated".to_string(),
+                        Err(e) => format!("err:{e:?}"),
+                    }
+                });
+                p.out.push(json!({"id": format!("blind_proof_gen-{}", d), "call": "blind_proof_gen", "inputs": [format!("{:?}", di)], "outcome": outcome, "tags": if d == "repeated index" { vec!["counts"] } else { vec!["expect-err", "counts"] }}));
+            }
+        }
         "update_signature" => {
             let kp = KP::<Sha>::generate(IKM, None, None).unwrap();
             let m = msgs(3);
